@@ -683,7 +683,7 @@ Qed.
 Lemma rfc_accept_one_frame max bs w :
   rfc_parse_frame max bs = Accept w -> rfc_frames bs = ([bs], []).
 Proof.
-  unfold rfc_parse_frame.
+  unfold rfc_parse_frame, rfc_parse_frame_with.
   destruct bs as [|l2 [|l1 [|l0 after]]]; try discriminate.
   destruct (max <? _); [discriminate|].
   destruct after as [|ty [|fl [|s3 [|s2 [|s1 [|s0 payload]]]]]]; try discriminate.
@@ -1014,15 +1014,15 @@ Proof.
 Qed.
 
 Lemma push_promise_load_plain k fl sid promised p :
-  sid <> 0 -> promised < 2147483648 -> (fl = 0 \/ fl = 4) -> lenN p <> 0 ->
+  sid <> 0 -> promised < 2147483648 -> (fl = 0 \/ fl = 4) ->
   push_promise_load (mk_head k fl sid) (enc_u32 promised ++ p) = Ok (FPushPromise sid fl promised p).
 Proof.
-  intros Hs Hp Hfl Hne. unfold push_promise_load. cbn [mk_head h_sid h_flag].
+  intros Hs Hp Hfl. unfold push_promise_load. cbn [mk_head h_sid h_flag].
   apply N.eqb_neq in Hs. rewrite Hs.
   assert (Hl : lenN (enc_u32 promised ++ p) = 4 + lenN p) by (rewrite FrameCodecProofs.lenN_app; reflexivity).
   destruct Hfl as [ -> | -> ];
     (change (has_bit _ headers_PADDED) with false; cbn [bind];
-     destruct (lenN (enc_u32 promised ++ p) <? 5) eqn:E5; [apply N.ltb_lt in E5; lia|];
+     destruct (lenN (enc_u32 promised ++ p) <? 4) eqn:E5; [apply N.ltb_lt in E5; lia|];
      unfold enc_u32; cbn [app]; change (0 <? 0) with false; cbn [bind];
      assert (Hp' : fst (parse_sid ((promised / 16777216) mod 256) ((promised / 65536) mod 256)
                                   ((promised / 256) mod 256) (promised mod 256)) = promised)
@@ -1046,12 +1046,12 @@ Proof.
 Qed.
 
 Lemma decode_open_push_promise mh mc acc0 sid promised part :
-  sid <> 0 -> sid < 2147483648 -> promised < 2147483648 -> lenN part <> 0 ->
+  sid <> 0 -> sid < 2147483648 -> promised < 2147483648 ->
   decode_frame hp_raw mh mc None acc0
     (head_encode kind_push_promise 0 sid (lenN (enc_u32 promised ++ part)) ++ enc_u32 promised ++ part) =
     (Some {| pt_frame := FPushPromise sid 0 promised []; pt_buf := []; pt_count := 0 |}, part, DNone).
 Proof.
-  intros Hs Hs31 Hp Hne. unfold decode_frame, kind_push_promise.
+  intros Hs Hs31 Hp. unfold decode_frame, kind_push_promise.
   rewrite parse_head_encoded by lia. cbn [mk_head h_kind]. change (kind_new 5) with KPushPromise. cbn [andb].
   rewrite load_frame_encoded by lia. unfold dispatch. cbn [mk_head h_kind h_sid]. change (kind_new 5) with KPushPromise.
   cbv iota. rewrite push_promise_load_plain by auto.
@@ -1172,17 +1172,17 @@ Definition continuations_needed (smax : N) (f : frame) : N :=
    CONTINUATION-flood limit is not exceeded. *)
 Theorem C12_roundtrip_reader : forall smax rmax hls f,
   42 <= smax -> smax <= MAX_MAX_FRAME_SIZE -> smax <= rmax ->
-  frame_wf smax f = true -> pp_block_nonempty f = true ->
+  frame_wf smax f = true ->
   continuations_needed smax f <= calc_max_continuation_frames hls rmax + 1 ->
   exists bs,
     encode smax f = EOk bs /\
     map raw_event_frame (snd (feed hp_raw (rinit [] rmax hls) bs)) = [Some f].
 Proof.
-  intros smax rmax hls f H42 Hmax Hr Hwf Hpp Hcont.
+  intros smax rmax hls f H42 Hmax Hr Hwf Hcont.
   pose proof Hmax as Hmax'. unfold MAX_MAX_FRAME_SIZE in Hmax'.
   assert (Hsingle : single_frame smax f = true ->
      exists bs, encode smax f = EOk bs /\ map raw_event_frame (snd (feed hp_raw (rinit [] rmax hls) bs)) = [Some f]).
-  { intros Hs. destruct (C12_roundtrip smax f H42 Hmax Hwf Hs) as (bs & He & _ & Hm). specialize (Hm Hpp).
+  { intros Hs. destruct (C12_roundtrip smax f H42 Hmax Hwf Hs) as (bs & He & _ & Hm).
     exists bs. split; [exact He|].
     apply (model_parse_max_mono smax rmax) in Hm; [|exact Hr].
     destruct (model_parse_ld rmax bs _ [] Hm) as [Hld Hlf]. rewrite app_nil_r in Hld.
@@ -1256,7 +1256,6 @@ Proof.
     destruct Hfl; subst flags; reflexivity.
   - (* PUSH_PROMISE + CONTINUATION *)
     cbn [single_frame] in Es. apply N.leb_gt in Es.
-    cbn [pp_block_nonempty] in Hpp. apply negb_true_iff, N.eqb_neq in Hpp.
     cbn [frame_wf] in Hwf. unfold sid_ok in Hwf. split_andb. boolprops.
     match goal with H : sid <> 0 |- _ => rename H into Hs0 end.
     unfold headers_END_HEADERS in *. subst flags.
@@ -1279,7 +1278,6 @@ Proof.
     eexists. split; [reflexivity|].
     assert (Hpl : lenN (enc_u32 promised ++ part) = smax).
     { rewrite FrameCodecProofs.lenN_app, Hlt. change (lenN (enc_u32 promised)) with 4. lia. }
-    assert (Hpne : lenN part <> 0) by lia.
     rewrite feed_run. unfold with_buf, set_core, rinit.
     cbn [r_buf r_ld r_max_frame r_max_hls r_max_cont r_partial r_hs r_dead app].
     rewrite <- Hpl at 1.
@@ -1288,7 +1286,7 @@ Proof.
       by (unfold st; cbn [r_max_frame]; lia).
     unfold st at 1 2 3 4. cbn [r_max_hls r_max_cont r_partial r_hs].
     change 5 with kind_push_promise at 1.
-    rewrite (decode_open_push_promise _ _ [] sid promised part Hs0 ltac:(lia) ltac:(lia) Hpne).
+    rewrite (decode_open_push_promise _ _ [] sid promised part Hs0 ltac:(lia) ltac:(lia)).
     match goal with |- context [drain hp_raw ?st1] => set (st' := st1) end.
     rewrite (drain_continuations smax sid ltac:(lia) Hmax Hs0 ltac:(lia) (S (length rest)) rest st'
                (FPushPromise sid 0 promised []) part 0 []
@@ -1303,7 +1301,7 @@ Qed.
 
 Example C12_roundtrip_reader_example :
   let f := FPushPromise 1 headers_END_HEADERS 2 (repeat 66 150) in
-  frame_wf 64 f = true /\ pp_block_nonempty f = true /\
+  frame_wf 64 f = true /\
   continuations_needed 64 f = 2 /\ calc_max_continuation_frames 16777216 16384 = 1280.
 Proof. vm_compute. repeat split; reflexivity. Qed.
 
